@@ -12,7 +12,8 @@ Built on unit arch (the real Archetype struct: key(), length).  External, with a
     instance, rows <= 2);
   * the user's fold closure, as an opaque recorder of the items it was called with.
 """
-from ..vxlib import Fn, Hint, Loop
+import re
+from ..vxlib import Fn, Hint, Loop, match_close
 from . import arch
 
 IT = "src/query/result/iter.rs"
@@ -229,8 +230,74 @@ impl<Registry: crate::Registry, Filter, Views, Indices> ResultsFolder<VxConsumer
 }
 '''
 
+CLAIMS_PRELUDE = r'''
+// ---- unit qiter, claims leg: externals of query/result/archetype_claims.rs
+/// does filter `F` accept a table with this identifier (`ContainsFilterSealed<F, _>::filter`; K-view)
+pub uninterp spec fn vx_matches_id<R: Registry, F>(k: archetype::IdentifierRef<R>) -> bool;
+#[verifier::external_body]
+pub fn vx_filter_id<R: Registry, F>(k: archetype::IdentifierRef<R>) -> (b: bool) ensures b == vx_matches_id::<R, F>(k) { unimplemented!() }
+/// R6: `R::Claims` of the query views joined with those of the entry views (K-claim)
+#[verifier::external_body]
+#[verifier::accept_recursive_types(R)]
+pub struct VxTaskClaims<R: Registry> { p: PhantomData<R> }
+pub uninterp spec fn vx_claims_of<R: Registry, V, EV>() -> VxTaskClaims<R>;
+#[verifier::external_body]
+pub fn vx_view_claims<R: Registry, V, EV>() -> (c: VxTaskClaims<R>) ensures c == vx_claims_of::<R, V, EV>() { unimplemented!() }
+/// index of the first table filter `F` accepts (or the length)
+pub open spec fn vx_first_match_id<R: Registry, F>(ts: Seq<archetype::Archetype<R>>) -> int
+    decreases ts.len()
+{
+    if ts.len() == 0 { 0 } else if vx_matches_id::<R, F>(ts[0].key()) { 0 } else { 1 + vx_first_match_id::<R, F>(ts.skip(1)) }
+}
+pub proof fn lemma_first_match_id<R: Registry, F>(ts: Seq<archetype::Archetype<R>>, n: int)
+    requires 0 <= n <= ts.len(), forall|j: int| 0 <= j < n ==> !vx_matches_id::<R, F>((#[trigger] ts[j]).key()),
+             n < ts.len() ==> vx_matches_id::<R, F>(ts[n].key()),
+    ensures vx_first_match_id::<R, F>(ts) == n
+    decreases ts.len()
+{
+    if ts.len() > 0 && n > 0 {
+        assert(!vx_matches_id::<R, F>(ts[0].key()));
+        assert forall|j: int| 0 <= j < n - 1 implies !vx_matches_id::<R, F>((#[trigger] ts.skip(1)[j]).key()) by { assert(ts.skip(1)[j] == ts[j + 1]); }
+        if n < ts.len() { assert(ts.skip(1)[n - 1] == ts[n]); }
+        lemma_first_match_id::<R, F>(ts.skip(1), n - 1);
+    }
+}
+'''
+
 FILTER_RE = (r"unsafe \{\s*<Registry as ContainsFilterSealed<\s*And<Views, Filter>,\s*And<Registry::ViewsFilterIndices, Registry::FilterIndices>,?\s*>>::filter\(archetype\.identifier\(\)\)\s*\}")
 VIEW_RE = (r"unsafe \{\s*archetype\.view::<Views, \(\s*Registry::ViewsContainments,\s*Registry::ViewsIndices,\s*Registry::ViewsCanonicalContainments,?\s*\)>\(\)\s*\}\s*\.reshape\(\)\s*\.into_iterator\(\)")
+
+
+def rw_find_map(body):
+    """R20: `IT.find(|x| { COND }).map(|x| EXPR)` as the tail expression ->
+           let mut vx_found = None; loop { match IT.next() { Some(x) => { if { COND } { vx_found = Some(x); break; } } None => { break; } } }
+           match vx_found { Some(x) => Some(EXPR), None => None }
+       (std's definitions of Iterator::find and Option::map, A1).  Bracket-aware."""
+    m = re.search(r"(self\s*\.\s*archetypes_iter)\s*\.find\(\|(\w+)\|\s*\{", body)
+    if not m:
+        return body, 0
+    it, x = re.sub(r"\s+", "", m.group(1)), m.group(2)
+    c0 = m.end() - 1
+    c1 = match_close(body, c0)
+    cond = body[c0 + 1:c1]
+    m2 = re.compile(r"\s*\)\s*\.map\(\|" + x + r"\|\s*\{").match(body, c1 + 1)
+    if not m2:
+        return body, 0
+    e0 = m2.end() - 1
+    e1 = match_close(body, e0)
+    expr = body[e0 + 1:e1]
+    m3 = re.compile(r"\s*\)\s*$").match(body, e1 + 1)
+    if not m3:
+        return body, 0
+    rep = (f"let mut vx_found: Option<&mut archetype::Archetype<Registry>> = None;\n"
+           f"        loop {{\n"
+           f"            match {it}.next() {{\n"
+           f"                Some({x}) => {{ if {{ {cond} }} {{ vx_found = Some({x}); break; }} }}\n"
+           f"                None => {{ break; }}\n"
+           f"            }}\n"
+           f"        }}\n"
+           f"        match vx_found {{ Some({x}) => Some({{ {expr} }}), None => None }}\n")
+    return body[:m.start()] + rep, 1
 
 
 def build():
@@ -315,6 +382,40 @@ def build():
         Fn(PI, F_IMPL, "full", ret="r", vis="pub", generics="", where="", props=["C09"]),
     ])
     u.label_props.update({"C09": ["C09"]})
+
+    # ---- claims leg: the (archetype, claims) iterator a schedule stage consults (C08)
+    AC = "src/query/result/archetype_claims.rs"
+    u.text(CLAIMS_PRELUDE)
+    u.struct(AC, "ArchetypeClaims", field_rewrites=[
+        (r"archetypes_iter:\s*archetypes::IterMut<'a, Registry>", "archetypes_iter: VxTableIter<'a, Registry>", "R7: the table iterator over the hashbrown RawIter"),
+    ])
+    ACH = "impl<'a, Registry: crate::Registry, Views, QueryFilter, Filter, EntryViews, QueryIndices, FilterIndices, EntryViewsIndices> ArchetypeClaims<'a, Registry, Views, QueryFilter, Filter, EntryViews, QueryIndices, FilterIndices, EntryViewsIndices>"
+    AC_IT = r"^impl<\s*'a,\s*Registry,\s*Views,\s*QueryFilter,\s*Filter,\s*EntryViews,\s*QueryIndices,\s*FilterIndices,\s*EntryViewsIndices,?\s*>\s*Iterator\s*for ArchetypeClaims<"
+    u.impl(ACH, [
+        Fn(AC, AC_IT, "next", ret="r", vis="pub", generics="", where="",
+           ret_type="Option<(archetype::IdentifierRef<Registry>, VxTaskClaims<Registry>)>",
+           rewrites=[(r"<Registry as ContainsFilterSealed<\s*(\w+(?:<[^<>]*>)?),\s*[\w:]+,?\s*>>::filter\(\s*([\w\.\(\)]+?),?\s*\)", r"vx_filter_id::<Registry, \1>(\2)",
+                      "R6: the type-level filter `ContainsFilterSealed<F, _>::filter(identifier)` -> assumed-contract call (K-view decides the filter tables per instance)"),
+                     (r"<Registry as ContainsViewsSealed<\s*'a,\s*Views,\s*\(\s*Registry::ViewsContainments,\s*Registry::ViewsIndices,\s*Registry::ViewsCanonicalContainments,?\s*\),?\s*>>::claims\(\)\s*\.merge_unchecked\(&<Registry as ContainsViewsSealed<\s*'a,\s*EntryViews,\s*EntryViewsIndices,?\s*>>::claims\(\)\)",
+                      "vx_view_claims::<Registry, Views, EntryViews>()",
+                      "R6: the claims of the query views joined with those of the entry views (type-level; K-claim) -> assumed-contract call"),
+                     (rw_find_map, "R20 `it.find(|x| { COND }).map(|x| EXPR)` -> explicit loop over `it.next()` with `if COND { found; break }`, then the match `Option::map` abbreviates", "see rw_find_map")],
+           ensures=[("C08.claims.next", "({ let n = vx_first_match_id::<Registry, Filter>(old(self).archetypes_iter.rest()); "
+                     "&&& n == old(self).archetypes_iter.rest().len() ==> r is None && final(self).archetypes_iter.rest().len() == 0 "
+                     "&&& n < old(self).archetypes_iter.rest().len() ==> r == Some((old(self).archetypes_iter.rest()[n].key(), vx_claims_of::<Registry, Views, EntryViews>())) && final(self).archetypes_iter.rest() == old(self).archetypes_iter.rest().skip(n + 1) })")],
+           loops=[Loop(invariant_except_break=[
+                       ("claims.skipped", "self.archetypes_iter.rest().len() <= vx_ts.len() && self.archetypes_iter.rest() == vx_ts.skip(vx_ts.len() - self.archetypes_iter.rest().len()) && forall|j: int| 0 <= j < vx_ts.len() - self.archetypes_iter.rest().len() ==> !vx_matches_id::<Registry, Filter>((#[trigger] vx_ts[j]).key())"),
+                       ("claims.not_found_yet", "vx_found is None")],
+                       ensures=[("claims.found", "self.archetypes_iter.rest().len() <= vx_ts.len() "
+                                 "&& (vx_found is None ==> self.archetypes_iter.rest().len() == 0 && forall|j: int| 0 <= j < vx_ts.len() ==> !vx_matches_id::<Registry, Filter>((#[trigger] vx_ts[j]).key())) "
+                                 "&& (vx_found is Some ==> ({ let k = vx_ts.len() - self.archetypes_iter.rest().len() - 1; 0 <= k < vx_ts.len() && *vx_found->0 == vx_ts[k] && vx_matches_id::<Registry, Filter>(vx_ts[k].key()) && self.archetypes_iter.rest() == vx_ts.skip(k + 1) && forall|j: int| 0 <= j < k ==> !vx_matches_id::<Registry, Filter>((#[trigger] vx_ts[j]).key()) }))")],
+                       decreases="self.archetypes_iter.rest().len()")],
+           hints=[Hint("start", "let ghost vx_ts = self.archetypes_iter.rest();"),
+                  Hint("before", "proof { let k = vx_ts.len() - self.archetypes_iter.rest().len(); if k < vx_ts.len() { assert(vx_ts.skip(k)[0] == vx_ts[k]); assert(vx_ts.skip(k).skip(1) =~= vx_ts.skip(k + 1)); } }", anchor=r"match self\.archetypes_iter\.next\(\) \{"),
+                  Hint("before", "proof { if vx_found is Some { lemma_first_match_id::<Registry, Filter>(vx_ts, vx_ts.len() - self.archetypes_iter.rest().len() - 1); } else { lemma_first_match_id::<Registry, Filter>(vx_ts, vx_ts.len() as int); } }", anchor=r"match vx_found \{")],
+           props=["C08"]),
+    ])
+    u.label_props.update({"C08": ["C08"], "claims": ["C08"]})
     u.pre_rewrites += [
         (FILTER_RE, "vx_filter::<Registry, Filter, Views>(archetype)", "R6: the type-level filter `ContainsFilterSealed<And<Views, Filter>, ..>::filter` on the table's identifier -> assumed-contract call (K-view decides the filter tables per instance)"),
         (VIEW_RE, "vx_view_rows::<Registry, Views>(archetype)", "R6: `Archetype::view::<Views, ..>().reshape().into_iterator()` -> assumed-contract call: one item per stored row (K-view decides the cells per instance)"),
